@@ -1,18 +1,26 @@
 #!/bin/bash
 # usage: run.sh <repo-path> search <prop|any> <seed> <sequences> <maxlen>   |   run.sh <repo-path> replay <prop|any> <seed> <index> <len>
-# Builds the search program against the crate at <repo-path> (debug assertions + overflow checks on) and runs it.
+# Builds the search program against the crate at <repo-path> (debug assertions + overflow checks on; indexmap as in a
+# release build) and runs it.  PQ_CEX_TARGET: shared cargo target dir (build + copy of the binary are serialised with
+# flock, so concurrent checks against different trees do not run each other's binary); default: private, removed.
 REPO=$(realpath "$1"); shift
 HERE=$(dirname "$(realpath "$0")")
-WORK=${PQ_CEX_WORK:-$(mktemp -d /tmp/pq-cex.XXXXXX)}
+BASE=${PQ_CEX_WORK:-/tmp}; mkdir -p "$BASE"
+WORK=$(mktemp -d "$BASE/pq-cex.XXXXXX")
+trap 'rm -rf "$WORK"' EXIT
 mkdir -p "$WORK/src"; cp "$HERE/src/main.rs" "$WORK/src/"
 sed "s|@REPO@|$REPO|" "$HERE/Cargo.toml.in" > "$WORK/Cargo.toml"
 cp /repo/Cargo.lock "$WORK/Cargo.lock" 2>/dev/null || true
 export CARGO_TARGET_DIR=${PQ_CEX_TARGET:-$WORK/target} CARGO_NET_OFFLINE=true
-rm -f "$CARGO_TARGET_DIR/debug/pq-cex"
-(cd "$WORK" && cargo build --offline -q 2>&1 | grep -E "^error" -A8 | head -20)
-[ -x "$CARGO_TARGET_DIR/debug/pq-cex" ] || { echo "pq-cex does not build against $REPO"; exit 3; }
-RUST_BACKTRACE=0 timeout ${PQ_CEX_TIMEOUT:-120} "$CARGO_TARGET_DIR/debug/pq-cex" "$@" 2>&1 | tail -80
+mkdir -p "$CARGO_TARGET_DIR"
+(
+  flock 9
+  rm -f "$CARGO_TARGET_DIR/debug/pq-cex"
+  (cd "$WORK" && cargo build --offline -q 2>&1 | grep -E "^error" -A8 | head -20)
+  [ -x "$CARGO_TARGET_DIR/debug/pq-cex" ] && cp "$CARGO_TARGET_DIR/debug/pq-cex" "$WORK/pq-cex"
+) 9> "$CARGO_TARGET_DIR/.pq-cex.lock"
+[ -x "$WORK/pq-cex" ] || { echo "pq-cex does not build against $REPO"; exit 3; }
+RUST_BACKTRACE=0 timeout ${PQ_CEX_TIMEOUT:-120} "$WORK/pq-cex" "$@" 2>&1 | tail -80
 rc=${PIPESTATUS[0]}
-[ -z "$PQ_CEX_WORK" ] && rm -rf "$WORK"
-if [ $rc -ne 0 ] && [ $rc -ne 1 ]; then echo "the program aborted with status $rc (an abort in a debug build is an unsafe-precondition / overflow check of the standard library firing)"; fi
+if [ $rc -ne 0 ] && [ $rc -ne 1 ]; then echo "the program ended with status $rc (124 = search budget exhausted)"; fi
 exit $rc
